@@ -196,6 +196,20 @@ class DataModels:
             raise PyExc('KeyError', ln, repr(k))
         return default
 
+    def _nonneg_term(self, I, t):
+        """syntactically non-negative: a bound variable whose range starts at >= 0, plus/times
+        non-negative numerals and such variables"""
+        nn = getattr(I, 'nonneg_vars', None)
+        if not nn:
+            return False
+        if z3.is_int_value(t):
+            return t.as_long() >= 0
+        if z3.is_const(t):
+            return t.get_id() in nn
+        if z3.is_add(t) or z3.is_mul(t):
+            return all(self._nonneg_term(I, c) for c in t.children())
+        return False
+
     def norm_index(self, I, k, n, ln, exc):
         """python index with negative wrap; raises exc when out of range"""
         if not is_sym(k) and not is_sym(n):
@@ -204,6 +218,8 @@ class DataModels:
             return k + n if k < 0 else k
         kk, nn = to_int(k), to_int(n)
         if I.pure:
+            if is_sym(k) and self._nonneg_term(I, kk):
+                return kk         # quantifier variable ranging from a non-negative bound: no wrap term
             return z3.If(kk < 0, kk + nn, kk) if (is_sym(k) or k < 0) else kk
         if not is_sym(k) and k < 0:
             idx = nn + k
